@@ -280,9 +280,42 @@ Definition nary_core (P me ntop nint nbot : Z) (R : list Z) (ep : option (list p
         k senders pays)
     end.
 
+(* ---- SC_NOTIFY_NBX: sc_notify_payload_nbx ------------------------------------------------------------------------------
+   Issend to every receiver, then the loop
+     for (done = 0; !done;) { Iprobe (ANY); if (flag) Recv;  if (!barr) { Testall (sends); if (sent) { Ibarrier; barr = 1; } } else Test (barrier, &done); }
+   Polls are actions whose reply is their outcome: the wildcard Recv stands for Iprobe (+ Recv on success), a reply
+   whose source is negative means flag = 0; K_TESTALL / K_TEST reply [flag]; K_IBARRIER posts the barrier.
+   The loop has no bound in the code; the model takes a fuel (the co-simulation passes the number of traced polls). *)
+Definition K_TESTALL : Z := 6.
+Definition K_IBARRIER : Z := 7.
+Definition K_TEST : Z := 8.
+Definition K_FUEL : Z := 9.          (* never a call of the code: the model's loop bound was reached *)
+
+Fixpoint nbx_loop (fuel : nat) (tag : Z) (barr : bool) (acc : list (Z * payload)) (k : list (Z * payload) -> prog) : prog :=
+  match fuel with
+  | O => Do (Coll K_FUEL (-1) []) (fun _ => Ret [])
+  | S f =>
+    Do (Recv ANY tag) (fun r =>
+      let acc' := if hd 0 r <? 0 then acc else (hd 0 r, tl r) :: acc in
+      if barr then
+        Do (Coll K_TEST (-1) []) (fun d => if hd 0 d =? 0 then nbx_loop f tag true acc' k else k (rev acc'))
+      else
+        Do (Coll K_TESTALL (-1) []) (fun s =>
+          if hd 0 s =? 0 then nbx_loop f tag false acc' k
+          else Do (Coll K_IBARRIER (-1) []) (fun _ => nbx_loop f tag true acc' k)))
+  end.
+
+Definition nbx_core (fuel : nat) (R : list Z) (ep : option (list payload)) (sorted : bool)
+           (k : list Z -> list payload -> prog) : prog :=
+  do_sends (map (fun rp => (fst rp, c_SC_TAG_NOTIFY_NBX, snd rp))
+                (zip R (match ep with None => map (fun _ => []) R | Some ps => ps end)))
+    (nbx_loop fuel c_SC_TAG_NOTIFY_NBX false [] (fun got =>
+       let got' := if sorted then sort_by_src got else got in
+       k (map fst got') (match ep with None => [] | Some _ => map snd got' end))).
+
 (* ---- sc_notify_payload ------------------------------------------------------------------------------------------ *)
-(* typ: 0 allgather, 1 binary, 2 nary, 3 pex, 4 pcx, 5 rsx (sc_notify_type_t) *)
-Definition notify_prog (typ P me ntop nint nbot : Z) (sorted : bool) (R : list Z) (pays : option (list payload)) (sz : Z) (eager : bool) : prog :=
+(* typ: 0 allgather, 1 binary, 2 nary, 3 pex, 4 pcx, 5 rsx, 6 nbx (sc_notify_type_t); fuel: bound for the nbx polling loop *)
+Definition notify_prog (fuel : nat) (typ P me ntop nint nbot : Z) (sorted : bool) (R : list Z) (pays : option (list payload)) (sz : Z) (eager : bool) : prog :=
   let ep := epay pays eager in
   let k := finish R pays eager in
   if typ =? 0 then allgather_core me R ep k
@@ -291,4 +324,5 @@ Definition notify_prog (typ P me ntop nint nbot : Z) (sorted : bool) (R : list Z
   else if typ =? 3 then pex_core P R ep sz k
   else if typ =? 4 then census_core K_RSB P R ep sorted k
   else if typ =? 5 then census_core K_RMA P R ep sorted k
+  else if typ =? 6 then nbx_core fuel R ep sorted k
   else Ret [].
